@@ -214,14 +214,21 @@ func c01Family(c core.Case) (res core.Result) {
 	var prevS, prevA int64
 	var series []string
 	var ms runtime.MemStats
-	for n := 64; n <= maxN; n *= 2 {
+	// sizes double from 16 tokens; the growth test starts at n = 64 so that a blow-up is seen while
+	// the inputs are still small (a quartic or exponential change is flagged long before the big
+	// sizes are reached), and the first violation ends the family
+	for n := 16; n <= maxN; n *= 2 {
 		reps := n / btoks
 		in := fmt.Sprintf(frames[fi], strings.TrimSpace(strings.Repeat(block+" ", reps)))
+		budget := int64(100_000_000) + 20*int64(n)*int64(n)*int64(n)
+		if budget > c01FamilyBudget {
+			budget = c01FamilyBudget
+		}
 		runtime.ReadMemStats(&ms)
 		a0 := ms.TotalAlloc
 		var total int64
 		for _, df := range []core.BStr{"", "D"} {
-			results, e := sixOps(in, df, c01FamilyBudget)
+			results, e := sixOps(in, df, budget)
 			if e != nil {
 				res.Nontrivial = true
 				res.Hash = core.Hash64("family-accepted", block, p[0])
@@ -230,7 +237,7 @@ func c01Family(c core.Case) (res core.Result) {
 				total += r.steps
 				if r.pi != nil {
 					if r.pi.Msg == "statement budget exceeded" {
-						add("growth", "absolute-cap "+r.name, fmt.Sprintf("%s on %d tokens executed more than %d statements", r.name, n, int64(c01FamilyBudget)), "polynomial time")
+						add("growth", "absolute-cap "+r.name, fmt.Sprintf("%s on %d tokens executed more than %d statements", r.name, n, budget), "polynomial time")
 					} else {
 						add("panic", r.name+" "+core.AbstractMsg(r.pi.Msg)+"@"+r.pi.Where, fmt.Sprintf("%s on %d tokens: %s", r.name, n, r.pi), "returns normally")
 					}
@@ -245,12 +252,12 @@ func c01Family(c core.Case) (res core.Result) {
 		runtime.ReadMemStats(&ms)
 		alloc := int64(ms.TotalAlloc - a0)
 		series = append(series, fmt.Sprintf("n=%d S=%d A=%d", n, total, alloc))
-		if n >= 512 && prevS > 0 {
-			if total > 9*prevS+10000 {
+		if n >= 64 && prevS > 0 {
+			if total > 9*prevS+50000 {
 				add("growth", "statements", strings.Join(series, "; "), "S(2n) <= 9·S(n)")
 				return
 			}
-			if alloc > 9*prevA+(1<<20) {
+			if alloc > 9*prevA+(4<<20) {
 				add("growth", "allocation", strings.Join(series, "; "), "A(2n) <= 9·A(n)")
 				return
 			}
